@@ -74,6 +74,15 @@ def cbcInv (k : Cipher) (s : ModePad.Scheme) (C : List Nat) : Option (List Nat) 
 def ctr (k : Cipher) (iv : Block) (M : List Nat) : List Nat :=
   concat (ctrEncrypt k (counterBlock k.len iv) (blocks k.len M))
 
+/-- Appendix B.1 with the two parts of the initial counter block given separately (a nonce of any length, the standard
+    incrementing function on the m = 8·|count| remaining bits): T_j = nonce ‖ [(c0 + j) mod 2^m]_m -/
+def counterBlockOf (nonce count : Block) (j : Nat) : Block :=
+  nonce ++ beBytes count.length ((beVal count + j) % 2 ^ (8 * count.length))
+
+/-- CTR with the initial counter block nonce ‖ count -/
+def ctrOf (k : Cipher) (nonce count : Block) (M : List Nat) : List Nat :=
+  concat (ctrEncrypt k (counterBlockOf nonce count) (blocks k.len M))
+
 /-! #### ciphertext stealing.  M = P_1 ‖ … ‖ P_{n-1} ‖ P*_n with |P*_n| = d, 1 ≤ d ≤ len, n ≥ 2 -/
 
 /-- ECB-CTS on the blocks P_1 … P_{n-1} P*_n (|P*_n| = d ≤ len): when P*_n is partial,
